@@ -94,6 +94,33 @@ CHECKS['C03'] = dict(
     technique='TLA+ contract state machine, trace validation by TLC of probe traces recorded from real generated code',
     design_ref='DESIGN.md sections 3.5 (OpContract), 5 (C03)', engine='tlc-opcontract')
 
+CHECKS['C04'] = dict(
+    text='spec/Routing.tla (a monitor over MiniPy.tla) predicts for every execution of every generated program the ordered '
+         'user-level operator events - each if, loop entry, lazy and/or operand evaluation, not, conditional expression and '
+         'call, stamped with the effect-log length at invocation. While the converted function runs on the same decision '
+         'vector, instrumented operators record the actual (operator, log length) events; the predicted list must embed in '
+         'order in the recorded one. Statically, the generated code of every conversion (several option sets) is parsed and '
+         'must contain no native if/while/for/break/continue/and/or/not/conditional expression and no native call outside '
+         'ag__ scaffolding and with-item expressions.',
+    note='Contexts generated so far: loop/branch/try/except/finally/with bodies, nested defs, operands of other overloaded '
+         'expressions. Lambda bodies, comprehension elements, decorators and default values are not generated yet (the nested '
+         'IfExp defect noted in DESIGN section 8 is therefore not exercised yet). Executions on which C01 already diverges are '
+         'judged by C01 only.',
+    technique='TLA+ semantics predicts operator-event sequences; embedding checked against events recorded from the converted code; AST scan of generated code',
+    design_ref='DESIGN.md section 5 (C04)', engine='tlc-minipy')
+CHECKS['C17'] = dict(
+    text='spec/Pipeline.tla is the conversion pipeline as a state machine (pass order as a function of the options; AstShape at '
+         'every pass boundary; compile / reparse / to_code facts at the end). Every conversion of a slice of the C01 program '
+         'class and of a zoo of unusual literals (negative numbers, nested f-strings, tuple subscripts, starred, walrus, chained '
+         'comparisons, lambdas in defaults, classes, try/else, with, imports, comprehensions) under up to five option sets is '
+         'recorded by wrapping the transform entry point of each converter module (13 boundaries) and the trace - the identity '
+         'of every node occurrence and the (actual, required) context of every context-carrying expression - is validated by TLC.',
+    note='Required contexts come from syntactic position (vf/pipeline.py:required). Shared Load/Store/operator singletons are not '
+         'node objects in the sense of the property. to_code is compared with the module file actually loaded for to_graph and '
+         'structurally with the tree returned by transform_ast of a fresh transpiler.',
+    technique='TLA+ pipeline state machine, trace validation by TLC of per-pass tree snapshots recorded from the real transpiler',
+    design_ref='DESIGN.md sections 3.4, 5 (C17)', engine='tlc-pipeline')
+
 NOT_CLAIMED = {}
 
 
